@@ -10,7 +10,7 @@ NS = '/chat'
 
 class SimpleAdapter:
     """cfg: arrivals (int), app (list of ['receive', has_timeout] /
-    ['emit']), conn (list of 'drop' | 'reconnect' | 'final')."""
+    ['emit']), conn (list of 'drop' | 'reconnect' | 'refail' | 'final' | 'giveup')."""
 
     def __init__(self, cfg):
         self.cfg = cfg
@@ -107,6 +107,25 @@ class SimpleAdapter:
                     w.wait_script = script
                     task.run()
                     w.wait_script = None
+                elif op == 'refail':
+                    # the first attempt of the effort fails at the transport,
+                    # the second (a step of its own) succeeds
+                    w.wait_answers = []
+                    w.connect_outcomes = ['fail']
+                    task = w.tasks[-1]
+
+                    def script():           # 1st wait: back-off, times out
+                        def second():       # 2nd wait: the next back-off
+                            sched.yield_point('c.retry')
+
+                            def third():    # 3rd wait: the CONNECT reply
+                                c.eio.deliver(refcodec.ref_encode(
+                                    0, NS, None, {'sid': 'S2'})[0])
+                            w.wait_script = third
+                        w.wait_script = second
+                    w.wait_script = script
+                    task.run()
+                    w.wait_script = None
                 me.ck += 1
 
         sched.spawn('A', app)
@@ -167,6 +186,11 @@ CONFIGS = {
                     conn=['drop', 'reconnect']),
     'sc_emit_final': dict(arrivals=0, app=[['emit'], ['emit']],
                           conn=['drop', 'giveup']),
+    # a reconnection effort whose first attempt fails
+    'sc_refail': dict(arrivals=1, app=[['receive', True], ['emit']],
+                      conn=['drop', 'refail']),
+    'sc_emit_refail': dict(arrivals=0, app=[['emit'], ['emit']],
+                           conn=['drop', 'refail']),
     'sc_burst': dict(arrivals=3, app=[['receive', True], ['receive', True],
                                       ['receive', True], ['receive', True]],
                      conn=[]),
